@@ -7,7 +7,7 @@ From Coq Require Import List NArith Bool.
 Local Open Scope string_scope.
 Local Open Scope list_scope.
 Import ListNotations.
-From UV Require Import Py.Val Py.Str Py.Pct Py.UrlLib Ural.Utils Ural.Quote Ural.Canonicalize Proofs.CanonFacts Proofs.QuoteFacts.
+From UV Require Import Py.Val Py.Str Py.Pct Py.UrlLib Ural.Utils Ural.Quote Ural.Canonicalize Proofs.CanonFacts Proofs.QuoteFacts Proofs.UnquoteIdem Proofs.ControlFacts.
 
 Theorem C02_port_idem : forall sch p, canon_port sch (canon_port sch p) = canon_port sch p.
 Proof. exact canon_port_idem. Qed.
@@ -17,6 +17,35 @@ Theorem C02_upper_quoted_idem : forall s, upper_quoted (upper_quoted s) = upper_
 Proof. exact upper_quoted_idem. Qed.
 Theorem C02_safely_quote_idem : forall s, wf_str s -> safely_quote (safely_quote s) = safely_quote s.
 Proof. exact safely_quote_idem. Qed.
+
+(* the unquoting of each component is idempotent (C14, for every string): a second canonicalization finds every
+   userinfo item, the path, every query key / value and the fragment already in their unquoted form *)
+Theorem C02_unquote_idem : forall s,
+  safely_unquote_auth_item (safely_unquote_auth_item s) = safely_unquote_auth_item s /\
+  safely_unquote_path (safely_unquote_path s) = safely_unquote_path s /\
+  safely_unquote_query_item (safely_unquote_query_item s) = safely_unquote_query_item s /\
+  safely_unquote_fragment (safely_unquote_fragment s) = safely_unquote_fragment s.
+Proof. exact four_unquoters_idem. Qed.
+Theorem C02_unquote_qsl_idem : forall l, safely_unquote_qsl (safely_unquote_qsl l) = safely_unquote_qsl l.
+Proof. exact safely_unquote_qsl_idem. Qed.
+
+(* one spelling whatever control characters the url holds, and wherever: canonicalize_url only depends on the
+   characters of its argument that are not control characters (removing them is a filter: `re.sub` of the one-character
+   class CONTROL_CHARS_RE by the empty string, proved of the regex engine) ... *)
+Theorem C02_control_characters_irrelevant : forall e u1 u2 dp q sf,
+  filter (fun c => negb (is_control_char c)) u1 = filter (fun c => negb (is_control_char c)) u2 ->
+  canonicalize_url e u1 dp q sf = canonicalize_url e u2 dp q sf.
+Proof. exact canonicalize_controls. Qed.
+
+Theorem C02_is_control_char : forall c, is_control_char c = ((c <=? 31) || ((127 <=? c) && (c <=? 159)))%N.
+Proof. exact is_control_char_spec. Qed.
+
+(* ... and whatever whitespace and control characters surround it, in any order *)
+Theorem C02_surrounding_junk_irrelevant : forall e a u b dp q sf,
+  forallb (fun c => is_control_char c || isspace_c c) a = true ->
+  forallb (fun c => is_control_char c || isspace_c c) b = true ->
+  canonicalize_url e (a ++ u ++ b) dp q sf = canonicalize_url e u dp q sf.
+Proof. exact canonicalize_surrounding_junk. Qed.
 
 (* the six historical non-idempotence witnesses are fixed points on the (fixed) model, in both modes *)
 Example C02_examples :
@@ -30,3 +59,8 @@ Proof. vm_compute. reflexivity. Qed.
 Print Assumptions C02_port_idem.
 Print Assumptions C02_upper_quoted_idem.
 Print Assumptions C02_safely_quote_idem.
+Print Assumptions C02_unquote_idem.
+Print Assumptions C02_unquote_qsl_idem.
+Print Assumptions C02_control_characters_irrelevant.
+Print Assumptions C02_is_control_char.
+Print Assumptions C02_surrounding_junk_irrelevant.
